@@ -151,6 +151,9 @@ def run(ctx):
     else:
         run_ranges(ctx, -8, 8, [-6, -4, -2, 2, 4, 6], 20)
     run_eop(ctx, 5 if thorough else 4)
+    # ---- the repository's own test-suite, trace-validated (SuiteTrace.tla / RoutingTrace.tla) -----------------------------
+    from checks import suite
+    suite.run(ctx, "C03", "dates")
     ctx.exhaustive = False
     ctx.assumptions += [
         "IERS tables are read from /repo/tests/data/pole by an independent reader (lib/eopgen.py)",
